@@ -243,6 +243,71 @@ CLAIMED["C15"] = dict(
          "follows the reference recurrence; shapes of the listed C01/C05 findings are excluded and counted.",
     design_ref="DESIGN.md §4 C15")
 
+# ---- second session: what the strengthened checks cover in addition (appended to the texts above) --------------------
+EXTRA = {
+    "C01": ("text", " One case in six routes edges through (shared) EdgeTemplates with an algebraic edge operator, per-edge "
+                    "values and - every third operator - a second input fed from a named variable; operator names inside a "
+                    "node type are prefixes of one another (op0, op0_b)."),
+    "C02": ("text", " One case in three adds a term in E/pi; for torch/jax one in three compiles the other precision of the "
+                    "same backend between obtaining and calling the function."),
+    "C03": ("text", " One convergence case in five is a (coupled) van der Pol relaxation oscillator, judged against the error "
+                    "the same scipy method reaches on the reference vector field (bound max(8e-5, 10x that error) at "
+                    "rtol 1e-6)."),
+    "C04": ("text", " Arm cross_type: a source type with 1-3 nodes projects to 2-12 nodes of another type through the indexed "
+                    "edge path (scalar-source fan-out, ten and more targets, back projections). The indexed arm also draws "
+                    "discrete and gamma delays; two cases in five of the main arm compile both settings one after the other "
+                    "on ONE template instance (in_place drawn)."),
+    "C05": ("text", " The strategy also draws right-hand sides without variables (negative constants) and families of "
+                    "algebraically related sums, e.g. (a + r)*(2 - a)."),
+    "C06": ("text", " Half of the cases make the request on a template instance that was compiled before with the same or the "
+                    "other vectorize setting (in_place drawn)."),
+    "C08": ("text", " The fixed-step arm also runs on the jax and torch solvers, with sampling steps of 2 and 5 integration "
+                    "steps, and with inputs that address ten and more nodes of one type."),
+    "C10": ("text", " Delays given as parameters are changed through the argument list at call time; a scipy run with a "
+                    "sampling step of 8-15 integration steps must agree (1.2e-2) with the finely sampled run at the common "
+                    "time points."),
+    "C11": ("text", " Arm structured: 3-6 identical nodes, 3-8 kernel edges whose sources repeat and are listed in drawn "
+                    "order, one or two (d, s) pairs; kernels with more stages than the delay has steps (order 8-16 at 5-12 "
+                    "steps) are drawn in both arms."),
+    "C12": ("text", " A third of the delayed models are requested with sparse=True (containers checked, then compared as "
+                    "dense matrices)."),
+    "C13": ("text", " Operations carry a float precision; a failed_compile operation leaves a half-finished translation "
+                    "behind; the sweep arm varies the equations for Fortran."),
+    "C14": ("text", " Operation copy_then_update makes a copy (update_template with and without new edges, deepcopy) and then "
+                    "changes a node variable and an inherited edge of the COPY in place; templates contain edge operators "
+                    "whose second input is a string-valued edge attribute."),
+    "C15": ("text", " Half of the cases also write the model into two YAML files that refer to one another (qualified and "
+                    "bare references) with decoy templates of the same names in the other file."),
+    "C16": ("text", " A third of the coupling edges are dynamic (a state variable per target-source pair); half of the judged "
+                    "runs follow an earlier translation (run / get_run_func, on a copy or in place) of the same objects."),
+    "C17": ("text", " A third of the base circuits are hierarchical with wildcard input keys; half of the edge sweeps add a "
+                    "second key on the same edge (its discrete delay)."),
+    "C19": ("text", " Arrays returned by earlier queries are held and must not change through later queries or updates."),
+}
+NOTE_REPLACE = {
+    "C06": ("Only models whose single-path baseline already agrees with the reference are judged (others are counted as "
+            "rejected: they are C01/C04's subject).",
+            "The request with one full path per key is judged as well (shapes of the listed findings are excluded first)."),
+    "C02": ("a model refused by a backend with an exception is counted as rejected; ",
+            "a model that NumPy compiles/runs and another backend refuses is a violation; adaptive comparisons skip "
+            "solutions that grow by more than a factor 50; "),
+    "C17": ("Flat base circuits; only", "Only"),
+    "C16": ("shapes of the listed findings F-16b..h", "shapes of the listed findings F-16c/d/e/g"),
+    "C09": ("shapes of the listed known findings (same pair twice, two delayed variables of one operator, vectorised fan-in "
+            "to one unit) are repaired/excluded and counted", "shapes of the listed known findings are excluded and counted"),
+    "C12": ("functions whose differentiation is a listed known finding (sin/cos/sinh/cosh imports; arcsin/arccos/arctan/absv "
+            "silently 0) are excluded and counted; ", ""),
+    "C10": ("negative numeric past coefficients are a listed finding.", "bundled parallel delayed connections are a listed "
+            "finding (F-09g)."),
+    "C18": ("literals not representable in float32 are a listed finding (single precision constants in generated Fortran).",
+            "case-insensitive clashes of user variables with E/PI/I are a listed finding."),
+}
+for k, (field, txt) in EXTRA.items():
+    CLAIMED[k][field] = CLAIMED[k][field] + txt
+for k, (old, new) in NOTE_REPLACE.items():
+    assert old in CLAIMED[k]["note"], (k, old)
+    CLAIMED[k]["note"] = CLAIMED[k]["note"].replace(old, new)
+
 NOT_YET = {}
 
 
